@@ -180,31 +180,36 @@ fn is_template(name: &str) -> bool {
     name.ends_with(".rs.html") || name.ends_with(".rs.svg") || name.ends_with(".rs.xml")
 }
 
-/// entries of a directory in `read_dir` order, encoded for the Lean driver
+/// the whole subtree of a directory in `read_dir` order, encoded for the Lean driver (`!` = cannot be
+/// listed).  The encoding is always complete (every file with its bytes), so that one path means one
+/// thing whichever call looks at it; which of the entries count as *inputs that must be announced*
+/// depends on the call: `recursive` (sub-directories are walked) and `contents` (0: every file is
+/// embedded but none is read, 1: template files are read, 2: every file is read).
 fn encode_entries(dir: &Path, recursive: bool, contents: u8, inputs: &mut Vec<(String, bool)>) -> String {
-    // contents: 0 none, 1 template files only, 2 all files
-    let Ok(rd) = std::fs::read_dir(dir) else { return String::new() };
-    let mut v = Vec::new();
-    for e in rd.flatten() {
-        let name = e.file_name().to_string_lossy().into_owned();
-        let p = e.path();
-        if p.is_dir() {
-            if recursive {
-                inputs.push((p.display().to_string(), true));
-                v.push(format!("d{}({})", hex(name.as_bytes()), encode_entries(&p, true, contents, inputs)));
+    fn go(dir: &Path, recursive: bool, contents: u8, track: bool, inputs: &mut Vec<(String, bool)>) -> Option<String> {
+        let rd = std::fs::read_dir(dir).ok()?;
+        let mut v = Vec::new();
+        for e in rd.flatten() {
+            let name = e.file_name().to_string_lossy().into_owned();
+            let p = e.path();
+            if p.is_dir() {
+                let t = track && recursive;
+                if t {
+                    inputs.push((p.display().to_string(), true));
+                }
+                v.push(format!("d{}({})", hex(name.as_bytes()), go(&p, recursive, contents, t, inputs).unwrap_or_default()));
             } else {
-                v.push(format!("d{}()", hex(name.as_bytes())));
+                let want = contents == 2 || (contents == 1 && is_template(&name));
+                if track && (want || contents == 0) {
+                    inputs.push((p.display().to_string(), false));
+                }
+                let c = std::fs::read(&p).unwrap_or_default();
+                v.push(format!("f{}:{}", hex(name.as_bytes()), hex(&c)));
             }
-        } else {
-            let want = contents == 2 || (contents == 1 && is_template(&name));
-            if want || contents == 0 {
-                inputs.push((p.display().to_string(), false));
-            }
-            let c = if want { std::fs::read(&p).unwrap_or_default() } else { vec![] };
-            v.push(format!("f{}:{}", hex(name.as_bytes()), hex(&c)));
         }
+        Some(v.join(","))
     }
-    v.join(",")
+    go(dir, recursive, contents, true, inputs).unwrap_or_else(|| "!".to_string())
 }
 
 fn uni_alnum_set(s: &str) -> String {
@@ -281,8 +286,8 @@ pub fn run_once(exe: &Path, root: &Path, outdir: &Path, script: &[SOp], k: usize
                 if fname != ".." && fname.rfind('.').map_or(false, |i| i > 0) {
                     inputs.push((a.clone(), false));
                 }
-                let c = std::fs::read(&a).unwrap_or_default();
-                ops_model.push(format!("F:{}:{}", hex(a.as_bytes()), hex(&c)));
+                let c = std::fs::read(&a).map(|c| hex(&c)).unwrap_or_else(|_| "!".to_string());
+                ops_model.push(format!("F:{}:{}", hex(a.as_bytes()), c));
                 child_ops.push(format!("F {}", hex(pass(p).as_bytes())));
                 alltext.push_str(&a);
             }
@@ -374,7 +379,8 @@ pub fn run_once(exe: &Path, root: &Path, outdir: &Path, script: &[SOp], k: usize
     );
     let answer = format!(
         "stdout={}|files={}|writes={}|names={}",
-        hex(stdout.join("\n").as_bytes()),
+        // lines of the harness' own child (an `Err` returned by a call) are not output of ructe
+        hex(stdout.iter().filter(|l| !l.starts_with("HARNESS-ERROR")).cloned().collect::<Vec<_>>().join("\n").as_bytes()),
         after.iter().map(|(p, c)| format!("{}:{}", hex(p.as_bytes()), hex(c))).collect::<Vec<_>>().join(","),
         writes.iter().map(|p| hex(p.as_bytes())).collect::<Vec<_>>().join(","),
         names.iter().map(|(a, b)| format!("{a}={b}")).collect::<Vec<_>>().join(",")
@@ -382,7 +388,7 @@ pub fn run_once(exe: &Path, root: &Path, outdir: &Path, script: &[SOp], k: usize
     RunResult { stdout, after, writes, names, req, answer, inputs }
 }
 
-fn apply(root: &Path, outdir: &Path, s: &Step) {
+pub fn apply(root: &Path, outdir: &Path, s: &Step) {
     let indir = root.join("in");
     match s {
         Step::Write(rel, c) => {
@@ -866,7 +872,7 @@ pub fn scenarios(args: &crate::Args) -> Vec<Scenario> {
 
 // ------------------------------------------------------------------------------------ oracles
 /// lexical normalisation (`a/b/../c` = `a/c`): cargo stats the path, so both spellings name one file
-fn lexical(path: &str) -> String {
+pub fn lexical(path: &str) -> String {
     let mut out: Vec<&str> = Vec::new();
     for c in path.split('/') {
         match c {
@@ -880,7 +886,7 @@ fn lexical(path: &str) -> String {
     out.join("/")
 }
 
-fn covered(path: &str, lines: &BTreeSet<String>) -> bool {
+pub fn covered(path: &str, lines: &BTreeSet<String>) -> bool {
     let lines: BTreeSet<String> = lines.iter().map(|l| lexical(l)).collect();
     let lines = &lines;
     let path = lexical(path);
